@@ -21,7 +21,7 @@ func (c05) Size(tier string) Size {
 	if tier == "thorough" {
 		return Size{Batches: 32, Cases: 700}
 	}
-	return Size{Batches: 8, Cases: 250}
+	return Size{Batches: 16, Cases: 200}
 }
 func (c05) Rule() string {
 	return "case = random schema (soft and struct-backed types over all kinds) + a valid document / resource / identifier payload marshaled by the library itself, then attacked: raw random bytes, bit flips, truncation at EVERY byte offset, nesting to depth 20000, structure-aware mutation (each value position replaced by a number / string / bool / null / array / object - a sample of positions in quick, every position in thorough), unknown and missing types, unknown fields, duplicate keys, [null] elements; every input goes through all seven entry points (UnmarshalDocument, UnmarshalResource, UnmarshalPartialResource, UnmarshalCollection, UnmarshalIdentifier, UnmarshalIdentifiers, NewRequest with GET/POST/PATCH/DELETE). Oracle: no panic; exactly one of result / error; every resource reachable from a result has a type of the schema, every attribute a value of exactly the declared Go type (nil allowed for nullable), to-one a string, to-many a []string. Non-trivial = input that is valid JSON; distinct = input hash."
